@@ -860,6 +860,13 @@ func inPoolGet(fr *frame, a []value) value {
 	i := fr.i
 	p := a[0].(*value)
 	key := p
+	if i.w.Cfg.PoolLIFO {
+		if lst := i.pool[key]; len(lst) > 0 {
+			v := lst[len(lst)-1]
+			i.pool[key] = lst[:len(lst)-1]
+			return v
+		}
+	}
 	if i.w.Cfg.PoolReuse {
 		if lst := i.pool[key]; len(lst) > 0 {
 			// arbitrary choice: fresh object or any pooled one
@@ -889,7 +896,7 @@ func inPoolGet(fr *frame, a []value) value {
 
 func inPoolPut(fr *frame, a []value) value {
 	i := fr.i
-	if i.w.Cfg.PoolReuse {
+	if i.w.Cfg.PoolReuse || i.w.Cfg.PoolLIFO {
 		if i.pool == nil {
 			i.pool = map[*value][]value{}
 		}
